@@ -122,7 +122,7 @@ def _exact_trig(x):
     """exact (sin, cos) for the literal angles the code uses, when a symbolic
     context is active (so that cos(pi/2) is 0, not 6e-17, in the exact-real
     model).  Outside a symbolic context: None (native floats)."""
-    if core.CUR is None or not core.CUR.notes.get('exact_trig', True):
+    if core.CUR is None or not core.CUR.notes.get('exact_trig', False):
         return None
     for k, sc in ((0, (0, 1)), (1, (1, 0)), (2, (0, -1)), (-1, (-1, 0)), (-2, (0, -1))):
         if x == k * _math.pi / 2 or x == k * (_math.pi / 2.0):
